@@ -414,7 +414,7 @@ def extract_unit(u: Unit, rewrite_log: list) -> List[Piece]:
             # the formatting (one line, several lines, braced or not)
             pat = u.anchor[len("@closure:"):]
             k = find_unique(m, pat, u.name, lo, hi)
-            cp = match_brace(m, k + pat.rfind("("))
+            cp = match_brace(m, k + pat.find("("))
             ca, ce = k + len(pat), cp
             while ce > ca and src[ce - 1] in " \t\n,":
                 ce -= 1
